@@ -443,7 +443,7 @@ def runData (P : Params) (o : Oracle) (s : State) (_block : Nat) (t : TxIn) (pri
 def modelledTypes : List Nat := [1, 13, 5, 30, 16, 31, 17, 28, 29]
 
 /-- Does executing this transaction read state outside the live projection (orders, stakes, …)? -/
-def readsOther (t : TxIn) : Bool := t.gasCoin != 0 || !([1, 13, 5, 30, 16, 31, 17, 28, 29].contains t.typ)
+def readsOther (t : TxIn) : Bool := t.gasCoin != 0 || t.sigType == 2 || !([1, 13, 5, 30, 16, 31, 17, 28, 29].contains t.typ)
 
 /-! ### ExecutorV3.RunTx (deliver) -/
 
